@@ -825,6 +825,25 @@ func c20Locals(p *Program, r *Report) {
 				}
 			}
 		}
+		// slices.ContainsFunc(table, ctx.Request().URI().QueryArgs().Has)
+		if ss, fn, _, ok := tableMembershipTest(p, ce.cond); ok && fn != nil {
+			isHas := false
+			for _, g := range funcValuesOf(fn) {
+				if strings.Contains(fnName(g), "fasthttp.Args).Has") {
+					isHas = true
+				}
+				for _, c2 := range callsIn(g) {
+					if calleeName(c2) == "(*github.com/valyala/fasthttp.Args).Has" {
+						isHas = true
+					}
+				}
+			}
+			if isHas {
+				for _, s := range ss {
+					excluded[s] = true
+				}
+			}
+		}
 	}
 	h := p.Func("(" + ctrlPkg + ".S3ApiController).PutBucketActions")
 	type br struct {
@@ -1346,7 +1365,7 @@ func sameSliceValue(a, b ssa.Value) bool {
 			}
 			if c, ok := in.(ssa.CallInstruction); ok {
 				for _, arg := range c.Common().Args {
-					if arg == fa.X && mayPrecede(la, c) && mayPrecede(c, lb) {
+					if arg == fa.X && mayPrecede(la, c) && mayPrecede(c, lb) && fieldAssignedAfterConstruction(f, fa) {
 						return false
 					}
 				}
@@ -1354,6 +1373,36 @@ func sameSliceValue(a, b ssa.Value) bool {
 		}
 	}
 	return true
+}
+
+// fieldAssignedAfterConstruction: some function of the package stores into this field of this struct type other
+// than while building a fresh value (a composite literal: the struct was allocated in the same function). A field
+// that is only ever set by literals cannot change under a method that was handed the struct.
+func fieldAssignedAfterConstruction(f *ssa.Function, fa *ssa.FieldAddr) bool {
+	pp := programOf(f)
+	if pp == nil || f.Pkg == nil {
+		return true
+	}
+	st := derefType(fa.X.Type())
+	for _, g := range pkgFuncs(pp.SSA, f.Pkg) {
+		for _, b := range g.Blocks {
+			for _, in := range b.Instrs {
+				s, ok := in.(*ssa.Store)
+				if !ok {
+					continue
+				}
+				fa2, ok := s.Addr.(*ssa.FieldAddr)
+				if !ok || fa2.Field != fa.Field || !types.Identical(derefType(fa2.X.Type()), st) {
+					continue
+				}
+				if al, isAl := fa2.X.(*ssa.Alloc); isAl && al.Parent() == g {
+					continue // literal under construction
+				}
+				return true
+			}
+		}
+	}
+	return false
 }
 
 // rangeIndexInBounds: x[i] inside `for i := range y` where y and x are the same slice (the same value, or two loads
